@@ -123,14 +123,328 @@ def long_history_tie(c):
                   "search_steps_compared_there": stat["steps"], "front_end_calls_compared_there": stat["fe_calls"]})
 
 
+# ---------------------------------------------------------------------------------------------------------------
+# long utterances: frame numbers beyond 2^15 (and, thorough, 2^16) in ONE utterance — every integer that carries a
+# frame index from the search to seg_iter_frames must hold them (Props/C03Widths.lean is the proof-side counterpart)
+
+LONG_GRAMMARS = ["#JSGF V1.0;\ngrammar loop;\npublic <s> = (go forward ten meters)+ ;\n",
+                 "#JSGF V1.0;\ngrammar loop;\npublic <s> = (go forward ten meters | go backward ten meters)+ ;\n",
+                 "#JSGF V1.0;\ngrammar loop;\npublic <s> = (go | forward | ten | meters)+ ;\n"]
+LONG_SRC = "goforward.raw"
+
+
+def gen_long_case(rng, boundary, stats, first=False):
+    """one streamed utterance that is longer than `boundary` frames (tests/data/goforward.raw repeated, looping grammar, so that
+    words keep exiting beyond the boundary), with a partial result before the boundary, one right after it, one before
+    decoder_end_utt and the final one"""
+    n1 = len(c01.source_samples(LONG_SRC))
+    per = n1 // 160                                     # frames per repetition at 16 kHz / 100 frames per second
+    reps = boundary // per + rng.range(3, 5)
+    total = n1 * reps
+    cfg = {"dict": "@DATA/turtle.dic"}
+    if not first:
+        if rng.chance(0.3):
+            cfg["fsgusefiller"] = "no"
+        if rng.chance(0.3):
+            cfg["cmn"] = rng.choice(["batch", "none", "live"])
+        if rng.chance(0.3):
+            cfg["silprob"] = rng.choice(["0.5", "1e-6"])
+    gram = LONG_GRAMMARS[0] if first else rng.choice(LONG_GRAMMARS)
+    style = "max" if first else rng.weighted([("max", 3), ("fixed", 2), ("random", 2)])
+    f32 = 0 if first else (1 if rng.chance(0.2) else 0)
+    chunks, left = [], total
+    fixed = rng.choice([8000, 16000, 20000, 31999])
+    while left > 0:
+        k = min(left, c01.MAXCALL if style == "max" else fixed if style == "fixed" else rng.range(4000, c01.MAXCALL))
+        chunks.append(k)
+        left -= k
+    cross = (boundary + 2 * per) * 160                  # samples after which ≥ 2 repetitions lie beyond the boundary
+    early = rng.range(1, max(2, len(chunks) // 2))
+    plan, fed, crossed = ["start"], 0, False
+    for i, k in enumerate(chunks):
+        plan.append(["proc", k, 0, 0, f32])
+        fed += k
+        if i == early and fed < boundary * 160:
+            plan.append(["dump", f"mid{i}"])
+        if not crossed and fed >= cross and i != len(chunks) - 1:
+            crossed = True
+            plan.append(["dump", f"past{i}"])
+    plan += [["dump", "preend"], "end", ["dump", "fin"]]
+    for k, v in (("boundary", str(boundary)), ("chunking", style), ("grammar", gram.split("=")[1].strip()),
+                 ("fillers", cfg.get("fsgusefiller", "yes")), ("float32", str(f32))):
+        stats.setdefault(k, {})
+        stats[k][v] = stats[k].get(v, 0) + 1
+    return {"config": cfg, "lang": "en-us", "long_boundary": boundary,
+            "units": [{"grammar": {"kind": "jsgf", "text": gram},
+                       "utts": [{"audio": [{"src": LONG_SRC}] * reps, "plan": plan}]}]}
+
+
+def long_utterance_start(c):
+    """draws the cases (main thread) and starts decoding them in the background as soon as c01.run_check has built the
+    harnesses and pinned the driver; the decodes overlap with the main case loop of the check"""
+    import json, threading, time, concurrent.futures
+    import vlib
+    from pathlib import Path
+    thorough = c.tier == "thorough"
+    stats, cases = {}, []
+    for f in sorted((vlib.ROOT / "corpus" / "C03" / "long").glob("*.json")):
+        cases.append((f"corpus-long-{f.stem}", json.loads(f.read_text())))
+    if thorough:
+        cases += [(f"long{k}", gen_long_case(c.rng, b, stats)) for k, b in enumerate([32768, 32768, 65536])]
+    elif not cases:
+        cases.append(("long0", gen_long_case(c.rng, 32768, stats, first=True)))
+    st = {"cases": cases, "stats": stats, "results": None, "stop": False, "error": None}
+
+    def ready():
+        return bool(c01._driver) and Path(c01._driver[0]).parent == Path(c.scratch) and bool(c01._ndebug) \
+            and Path(c01._ndebug[0]).parent == Path(c.scratch)
+
+    def run():
+        try:
+            while not ready():
+                if st["stop"]:
+                    return
+                time.sleep(0.5)
+            binp, nfoff = Path(c.scratch) / "h_c01-asan", c01.nframes_offset()
+            with concurrent.futures.ThreadPoolExecutor(max_workers=2) as ex:
+                st["results"] = list(ex.map(lambda t: c01.run_case(binp, t[1], c.scratch, t[0], nfoff), cases))
+        except Exception as e:      # reported by long_utterance_finish
+            st["error"] = repr(e)
+    st["ready"] = ready
+    st["thread"] = threading.Thread(target=run, daemon=True)
+    st["thread"].start()
+    return st
+
+
+def long_utterance_finish(c, st):
+    """Segmentation of utterances whose frame numbers pass 2^15 (quick: the corpus case; thorough: also generated ones,
+    one of them beyond 2^16): the whole judgement of c01.run_case (model = iterator output field by field, segsTileB /
+    scoresSumB / hypothesis = segment words evaluated by the verified checkers on what decoder_seg_iter returned, frame
+    accounting of every call) on partial results before and after the boundary and on the final result."""
+    from pathlib import Path
+    if not st["ready"]():
+        st["stop"] = True           # c01.run_check stopped before it had harnesses and driver: nothing to judge
+    st["thread"].join()
+    cases, stats, results = st["cases"], st["stats"], st["results"]
+    thorough = c.tier == "thorough"
+    nfoff = c01.nframes_offset()
+    if results is None:
+        c.oblige("long utterances: the family ran", False, st["error"])
+        return
+    ok, reached, seen = True, True, []
+    for (tag, cs), r in zip(cases, results):
+        b = cs.get("long_boundary", 32768)
+        asserted = None
+        if r["crash"] and "Assertion" in r["crash"].get("stderr_tail", ""):
+            # an assert of the library stopped the assert-enabled build: the pinned build is -DNDEBUG and goes on, so the
+            # property is evaluated on what THAT build returns (plain flavour of the same harness); the assert is reported too
+            asserted = r["crash"]["stderr_tail"][-300:]
+            r = c01.run_case(Path(c.scratch) / "h_c01-ndebug", cs, c.scratch, tag + "-plain", nfoff)
+            stats["cases_judged_on_the_plain_flavour_after_a_library_assert"] = stats.get("cases_judged_on_the_plain_flavour_after_a_library_assert", 0) + 1
+            if not r["crash"] and not r["p3"]:
+                ok = False
+                c.violation({"kind": "an assert of the library fails during a long utterance (the -DNDEBUG build returns results that satisfy the property)",
+                             "assert": asserted, "case": cs}, False, tag="long-assert")
+        if r["crash"]:
+            ok = False
+            c.oblige(f"long utterance: decode runs to completion without sanitizer report / abort ({tag})", False, r["crash"])
+            c.violation({"kind": "the library crashed / aborted / reported a sanitizer error during a long utterance",
+                         "case": cs, "crash": r["crash"]}, False, tag="long-crash")
+            continue
+        beyond = [i for i in r["infos"] if i["frames"] > b and i.get("last_ef_gap") is not None
+                  and i["frames"] - 1 - i["last_ef_gap"] >= b]
+        seen.append({"case": tag, "boundary": b,
+                     "results (final, frames searched, end of last segment, segments)":
+                         [(i["final"], i["frames"], None if i.get("last_ef_gap") is None else i["frames"] - 1 - i["last_ef_gap"], i["nseg"])
+                          for i in r["infos"]]})
+        probs = sorted(r["p3"], key=lambda p: not p[1])
+        if probs:
+            ok = False
+            c.violation({"kind": probs[0][0],
+                         "problems": [{"what": k, "implementation_violates_property": v, "detail": _clip(d)} for k, v, d in probs[:4]],
+                         "case": cs, "family": f"long utterance (more than {b} frames)", "library_assert_in_the_assert_enabled_build": asserted,
+                         "how_to_rerun": "python3 tools/check.py C03 --replay <this file>"}, any(p[1] for p in probs), tag="long")
+        elif not (any(i["final"] for i in beyond) and any(not i["final"] for i in beyond)):
+            reached = False
+    c.oblige("long utterances (frame numbers beyond 2^15" + (" and 2^16" if thorough else "") + "): the model's segments = the iterator "
+             "output, segsTileB, scoresSumB, hypothesis = segment words and the frame accounting hold on every partial and final result",
+             ok, seen)
+    c.oblige("generator: every long utterance produced a partial AND a final result whose last word segment ends beyond the boundary",
+             reached or not ok, seen)
+    c.cov.update({"long_utterance_family": {"cases": len(cases), "distribution": stats, "results": seen}})
+
+
+def _clip(d):
+    """violation details of a long utterance without the hundreds of segments"""
+    out = {}
+    for k, v in d.items():
+        out[k] = (v[:6] + ["…"] + v[-12:]) if isinstance(v, list) and len(v) > 24 else v
+    return out
+
+
+# ---------------------------------------------------------------------------------------------------------------
+# vocabulary changed at run time (decoder_add_word) before / between / after grammar loads: alternate pronunciations of
+# FILLER words, alternates of ordinary words, new words — crossed with fillprob / silprob settings that put the added
+# fillers on the best path.  "Filler" in the hypothesis clause is judged by the DICTIONARY (dict_filler_word, lines SD of
+# the harness), not by the grammar's own marks, and the two are tied on every word of the search FSG.
+
+VOCAB_GRAMMARS = [("jsgf", "#JSGF V1.0;\ngrammar g;\npublic <s> = go forward ten meters ;\n"),
+                  ("jsgf", "#JSGF V1.0;\ngrammar g;\npublic <s> = (go forward ten meters)+ ;\n"),
+                  ("jsgf", "#JSGF V1.0;\ngrammar g;\npublic <s> = go (forward | backward) (ten | two | four) [meter | meters] ;\n"),
+                  ("jsgf", "#JSGF V1.0;\ngrammar g;\npublic <s> = [go] forward [ten] meters ;\n"),
+                  ("align", "go forward ten meters")]
+FILLER_ALTS = [("[NOISE](2)", "<sil>"), ("<sil>(2)", "[NOISE]"), ("[SPEECH](2)", "<sil>"), ("[NOISE](3)", "[SPEECH]"), ("<sil>(3)", "[SPEECH]")]
+WORD_ALTS = [("meters(2)", "meter"), ("forward(2)", "four"), ("ten(2)", "two"), ("go(2)", "do"), ("meters(3)", "centimeters")]
+NEW_WORDS = [("[COUGH]", "<sil>"), ("++UM++", "[NOISE]"), ("Go", "go"), ("METERS", "meters"), ("tin", "ten")]
+
+
+def gen_vocab_case(rng, stats, k):
+    bump = lambda key, v: stats.setdefault(key, {}).__setitem__(v, stats.setdefault(key, {}).get(v, 0) + 1)
+    cfg = {}
+    if rng.chance(0.6):
+        cfg["dict"] = "@DATA/turtle.dic"
+    fp = rng.weighted([("0.05", 4), ("0.5", 2), ("0.1", 2), ("1e-3", 1), (None, 1)]) if k else "0.05"
+    sp = rng.weighted([(None, 5), ("1e-6", 2), ("0.5", 1), ("0.005", 1)])
+    if fp:
+        cfg["fillprob"] = fp
+    if sp:
+        cfg["silprob"] = sp
+    if rng.chance(0.1):
+        cfg["fsgusealtpron"] = "no"
+    if rng.chance(0.1):
+        cfg["fsgusefiller"] = "no"
+    bump("fillprob", str(fp)), bump("silprob", str(sp))
+
+    def draw_words(what):
+        out = []
+        kinds = rng.weighted([(("filler-alt",), 4), (("filler-alt", "word-alt"), 3), (("word-alt",), 1), (("filler-alt", "new"), 2),
+                              (("new",), 1), (("filler-alt", "filler-alt", "word-alt", "new"), 2)])
+        for kd in kinds:
+            w = rng.choice(FILLER_ALTS if kd == "filler-alt" else WORD_ALTS if kd == "word-alt" else NEW_WORDS)
+            if list(w) not in out and not any(w[0] == x[0] for x in seen):
+                out.append(list(w))
+                seen.append(w)
+                bump("added_words (kind @ when)", f"{kd} @ {what}")
+        # (3) before (2): an alternate numbered 3 is only meaningful to a reader after 2, the dictionary does not care
+        return out
+    seen = []
+    units = []
+    nunits = rng.weighted([(1, 5), (2, 4), (3, 1)])
+    case = {"config": cfg, "lang": "en-us", "units": units}
+    when0 = rng.weighted([("before", 6), ("after", 1), ("both", 2)]) if k else "before"
+    if k == 0:
+        # every run: a silence-pronounced alternate of the noise filler, as likely as silence is by default
+        cfg.clear()
+        cfg.update({"dict": "@DATA/turtle.dic", "fillprob": "0.05"})
+        case["addwords"] = [list(FILLER_ALTS[0])]
+        seen.append(FILLER_ALTS[0])
+        bump("added_words (kind @ when)", "filler-alt @ before the first grammar")
+    elif when0 in ("before", "both"):
+        case["addwords"] = draw_words("before the first grammar")
+    n1 = len(c01.source_samples(LONG_SRC))
+    for ui in range(nunits):
+        kind, text = rng.choice(VOCAB_GRAMMARS) if k else VOCAB_GRAMMARS[0]
+        bump("grammar", kind + ": " + text.split("=")[-1].strip()[:40])
+        u = {"grammar": {"kind": kind, "text": text}, "utts": []}
+        if ui > 0 and rng.chance(0.7):
+            u["addwords"] = draw_words("between grammar loads")
+        if (ui == 0 and when0 in ("after", "both")) or (ui > 0 and rng.chance(0.25)):
+            u["postwords"] = draw_words("after the grammar load")
+        for _ in range(rng.weighted([(1, 6), (2, 3)])):
+            pad = rng.weighted([(0, 5), (6000, 2), (16000, 1)])
+            audio = ([{"src": "zero", "b": pad}] if pad and rng.chance(0.5) else []) + [{"src": LONG_SRC}] + \
+                    ([{"src": LONG_SRC, "a": 36000, "b": 44000, "gain": 0.5}] if pad else [])
+            n = len(c01.render_audio(audio)) // 2
+            step = rng.choice([4000, 4000, 2000, 8000, 5555]) if k else 4000
+            plan, pos = ["start"], 0
+            while pos < n:
+                m = min(step, n - pos)
+                plan.append(["proc", m, 0, 0, 0])
+                pos += m
+                if pos < n:
+                    plan.append(["dump", f"p{pos}"])
+            plan += [["dump", "preend"], "end", ["dump", "fin"]]
+            u["utts"].append({"audio": audio, "plan": plan})
+        units.append(u)
+    return case
+
+
+def vocabulary_family(c):
+    import concurrent.futures
+    from pathlib import Path
+    binp, nfoff = Path(c.scratch) / "h_c01-asan", c01.nframes_offset()
+    thorough = c.tier == "thorough"
+    stats = {}
+    cases = [(f"vocab{k}", gen_vocab_case(c.rng, stats, k)) for k in range(10 if not thorough else 200)]
+    with concurrent.futures.ThreadPoolExecutor(max_workers=4) as ex:
+        results = list(ex.map(lambda t: c01.run_case(binp, t[1], c.scratch, t[0], nfoff), cases))
+    ok, seen = True, {"results": 0, "results_with_an_added_alternate_FILLER_on_the_best_path": 0,
+                      "results_with_an_added_alternate_of_an_ordinary_word_on_the_best_path": 0, "by_word": {},
+                      "add_word_calls_refused": 0}
+    reported, failing = 0, []
+    for (tag, cs), r in zip(cases, results):
+        for inf in r["infos"]:
+            seen["results"] += 1
+            af, aw = inf.get("alt_filler_segments") or [], inf.get("alt_word_segments") or []
+            seen["results_with_an_added_alternate_FILLER_on_the_best_path"] += 1 if af else 0
+            seen["results_with_an_added_alternate_of_an_ordinary_word_on_the_best_path"] += 1 if aw else 0
+            for w in set(af + aw):
+                seen["by_word"][w] = seen["by_word"].get(w, 0) + 1
+        probs = sorted(r["p3"], key=lambda p: not p[1])
+        if r["crash"]:
+            ok = False
+            c.oblige(f"run-time vocabulary: decode runs to completion without sanitizer report / abort ({tag})", False, r["crash"])
+            if reported < 2:
+                reported += 1
+                c.violation({"kind": "the library crashed / aborted / reported a sanitizer error after run-time vocabulary changes",
+                             "case": cs, "crash": r["crash"]}, False, tag="vocab-crash")
+        elif probs:
+            ok = False
+            failing.append((tag, cs, probs))
+    # the cases in which the implementation itself breaks the property first
+    failing.sort(key=lambda t: not any(p[1] for p in t[2]))
+    for tag, cs, probs in failing[:3]:
+        c.violation({"kind": probs[0][0],
+                     "problems": [{"what": k, "implementation_violates_property": v, "detail": _clip(d)} for k, v, d in probs[:4]],
+                     "case": cs, "original_case_tag": tag, "failing_cases_in_this_run": len(failing),
+                     "family": "vocabulary changed at run time (decoder_add_word) around grammar loads",
+                     "how_to_rerun": "python3 tools/check.py C03 --replay <this file>"}, any(p[1] for p in probs), tag=f"vocab-{tag}")
+    c.oblige("run-time vocabulary (alternates of fillers / of words, new words, added before / between / after grammar loads): hypothesis = "
+             "base forms of the segment words that are not fillers of the DICTIONARY, the grammar's filler marks = the dictionary's on every "
+             "word of the search FSG, and every other clause of the judgement, on every partial and final result", ok, seen)
+    c.oblige("generator: an alternate pronunciation of a filler word added at run time was on the best path of some result",
+             seen["results_with_an_added_alternate_FILLER_on_the_best_path"] > 0 or not ok, seen)
+    c.cov.update({"run_time_vocabulary_family": {"cases": len(cases), "distribution": stats, **seen}})
+
+
 def check(c):
+    st = long_utterance_start(c)
     try:
         c01.run_check(c, "C03")
         if c.obligations and all(o[1] for o in c.obligations if o[0].startswith("lake build")):
             long_history_tie(c)
+            vocabulary_family(c)
+            long_utterance_finish(c, st)
     finally:
+        st["stop"] = True
         fix_trusted(c)
 
 
 def replay(c, path):
-    c01.replay_common(c, path, "C03")
+    import json
+    from pathlib import Path
+    obj = json.loads(open(path).read())
+    if not obj.get("library_assert_in_the_assert_enabled_build"):
+        return c01.replay_common(c, path, "C03")
+    # recorded on the plain flavour (-DNDEBUG, what the pinned build does) after an assert of the library stopped the
+    # assert-enabled build: replay on the same flavour
+    orig = c01.private_harnesses
+
+    def plain(scratch):
+        orig(scratch)
+        return Path(scratch) / "h_c01-ndebug"
+    c01.private_harnesses = plain
+    try:
+        c01.replay_common(c, path, "C03")
+    finally:
+        c01.private_harnesses = orig
